@@ -10,6 +10,9 @@ PROPS = {
     "C09": P(9, "exploration",
              quick=dict(checks=6000, timeout=600),
              thorough=dict(checks=60000, shards=8, timeout=1800, fuzz=[("FuzzC09", 180)])),
+    "C12": P(12, "exploration",
+             quick=dict(checks=3000, timeout=600),
+             thorough=dict(checks=30000, shards=8, timeout=1800)),
     "C19": P(19, "exploration",
              quick=dict(checks=3000, timeout=300),
              thorough=dict(checks=40000, shards=4, timeout=900)),
